@@ -64,7 +64,11 @@ func openSys(c Case, dir string, fs vfs.FS) (s *sys, err error) {
 		if err = wal.VerifyDir(dir, fs); err != nil {
 			return s, fmt.Errorf("wal.VerifyDir: %w", err)
 		}
-		if s.walM, err = wal.Open(wal.Config{Dir: dir, FS: fs}); err != nil {
+		wcfg := wal.Config{Dir: dir, FS: fs}
+		if c.SmallSeg {
+			wcfg.SegmentSize = 64 << 10
+		}
+		if s.walM, err = wal.Open(wcfg); err != nil {
 			return s, fmt.Errorf("wal.Open: %w", err)
 		}
 		if s.man, err = manifest.Open(dir, fs); err != nil {
